@@ -176,5 +176,12 @@ func aadAgreement(c *Ctx, rule, storeName, loadName, typeName string) {
 			}
 		}
 		r.Check(ok, rule, typeName+" load AAD parameter is the record ID", p.Pos(ld.Pos()), "the id parameter is the loaded record's Id", "the id used as AAD is not the Id of the record being loaded")
+		// ... and the AAD is that lookup key itself, not a field read back from the
+		// record storage returned: the token's identity is the key it is looked up
+		// by, the stored bytes are not trusted
+		for f, d := range dec {
+			r.Check(strings.HasPrefix(d, "param:"), rule, typeName+" sealed field "+f+" is unsealed under the id looked up", p.Pos(ld.Pos()),
+				"decrypt AAD is the lookup parameter", "decrypt AAD is ."+d+" of the record as returned by storage, not the id looked up: a sealed value copied from another token's record still opens (sealed values can be moved between tokens)")
+		}
 	}
 }
